@@ -407,6 +407,7 @@ def tier_b(ctx, F, builds):
 def run(ctx):
     ctx.level = "model_checking"
     d = common.scratch("lcbv-c03-")
+    R.set_tier(ctx)             # watchdog seconds per library call and the check-wide budget of watchdog deaths
     F = Fails(ctx)
     def want(i, cfg):
         # suite configuration: as the suite builds it (validation off); the second build validates keys and runs under ASan
